@@ -101,6 +101,16 @@ def run(chk):
     for mr in (1, 2, 3):
         configs.append((["SACSD", "CASSD", "CASSE", "CASD", "ACSSD", "CASSD"], rng.choice([1, 3]), rng.choice([1, 4]), mr, "custom-comp", 1))
         configs.append((["ACD", "CAD", "DCA", "ACE", "AC", "ADC", "ACDD"], 1, 1, mr, "custom-comp", 1))
+    # long sequences: per-bin letter counts beyond 255, every compression
+    base = "".join(rng.choice(AA) for _ in range(255))
+    longs = [base, base + "A", base[:-1], base[:100] + "C" + base[100:], "A" * 256, "A" * 257, "A" * 255]
+    for comp in (1, 19, 20, 25):
+        configs.append((longs, rng.choice([1, 2]), comp, None, "lev", 1))
+    # larger lists (a remainder for every worker count; >= 64 sequences per worker)
+    big = gen.repertoire(rng, 203 if not thorough else 1031, minlen=5, maxlen=8, allow_empty=False)
+    for ncpu in ((2, 3) if not thorough else (2, 3, 7, 16)):
+        configs.append((big, ncpu, 1, None, "lev", 1))
+    configs.append((big[:131], 2, 2, 2, "ham", 1))
     # the corner the property names explicitly
     configs.append((["CAAA", "CADA", "CAAK"], 4, 1, None, "lev", 1))
     configs.append((["CAAA"], 16, 2, None, "lev", 1))
